@@ -325,6 +325,7 @@ class SymExec:
         self.run_tag = ""
         self.solver_calls = 0
         self.call_depth = 0
+        self.cur_guard = True
 
     # ---- control expressions -------------------------------------------
     def ctrl(self, e, env):
@@ -383,6 +384,8 @@ class SymExec:
         key = (config.name(), fld)
         if key not in self.cfg:
             self.cfg[key] = self.inp.cfg_var(config, fld)
+        if self.log_access:
+            self.log.append(Access("r", ("cfg",) + key, [], self.cur_guard, self.par_ctx, f"read config {key[0]}.{fld}"))
         return self.cfg[key]
 
     def stride_of(self, ref: Ref, dim: int):
@@ -552,6 +555,7 @@ class SymExec:
 
     def stmt(self, s, env, g):
         self._tick()
+        self.cur_guard = g
         if isinstance(s, (LoopIR.Assign, LoopIR.Reduce)):
             ref = env[s.name]
             idx = [self.ctrl(i, env) for i in s.idx]
@@ -574,6 +578,9 @@ class SymExec:
             old = self.read_cfg(s.config, s.field)
             self.cfg[key] = _If(g, v, old)
             self.cfg_written.add(key)
+            if self.log_access:
+                self.log.pop()  # the read above is not a program read
+                self.log.append(Access("w", ("cfg",) + key, [], g, self.par_ctx, f"write config {key[0]}.{s.field}"))
         elif isinstance(s, LoopIR.Pass):
             pass
         elif isinstance(s, LoopIR.If):
@@ -904,7 +911,10 @@ class ConcViolation(Exception):
 
 
 class CStore:
+    _ctr = itertools.count()
+
     def __init__(self, name, shape, data=None, strides=None, defined=False):
+        self.uid = next(CStore._ctr)
         self.name = name
         self.shape = list(shape)
         self.data: Dict[tuple, Any] = dict(data or {})
@@ -952,7 +962,9 @@ class ConcExec:
         self.max_steps = max_steps
         self.violations: List[Tuple[str, str]] = []
         self.check_view = check_view
-        self.accesses = None  # optional log for race replay
+        self.accesses = None  # optional log for race replay: (kind, store-key, idx, par ctx, where)
+        self.par_ctx = ()
+        self._par_uid = 0
 
     def viol(self, kind, where):
         self.violations.append((kind, where))
@@ -1002,6 +1014,8 @@ class ConcExec:
                 return a == b
             raise Unsupported(op)
         if isinstance(e, LoopIR.ReadConfig):
+            if self.accesses is not None:
+                self.accesses.append(("r", ("cfg", e.config.name(), e.field), (), self.par_ctx, f"read config {e.config.name()}.{e.field}"))
             return self.cfg.get((e.config.name(), e.field), 0)
         if isinstance(e, LoopIR.StrideExpr):
             ref = env[e.name]
@@ -1026,6 +1040,8 @@ class ConcExec:
             base = self.check(v, idx, f"read {e.name}")
             if base is None:
                 return None
+            if self.accesses is not None:
+                self.accesses.append(("r", v.store.uid, base, self.par_ctx, f"read {e.name}"))
             return v.store.get(base)
         if isinstance(e, LoopIR.USub):
             a = self.data(e.arg, env)
@@ -1061,6 +1077,8 @@ class ConcExec:
                 return 1 / (1 + self._uf("exp", [-xs[0]]))
             return self._uf(nm, xs)
         if isinstance(e, LoopIR.ReadConfig):
+            if self.accesses is not None:
+                self.accesses.append(("r", ("cfg", e.config.name(), e.field), (), self.par_ctx, f"read config {e.config.name()}.{e.field}"))
             v = self.cfg.get((e.config.name(), e.field), 0)
             return Fraction(v)
         raise Unsupported(type(e).__name__)
@@ -1132,11 +1150,13 @@ class ConcExec:
                 v = None if (old is None or v is None) else old + v
             ref.store.data[base] = v
             if self.accesses is not None:
-                self.accesses.append(("w" if isinstance(s, LoopIR.Assign) else "red", ref.store, base))
+                self.accesses.append(("w" if isinstance(s, LoopIR.Assign) else "red", ref.store.uid, base, self.par_ctx, f"write {s.name}"))
         elif isinstance(s, LoopIR.WriteConfig):
             t = s.config.lookup_type(s.field)
             v = self.ctrl(s.rhs, env) if is_ctrl_type(t) else self.data(s.rhs, env)
             self.cfg[(s.config.name(), s.field)] = v
+            if self.accesses is not None:
+                self.accesses.append(("w", ("cfg", s.config.name(), s.field), (), self.par_ctx, f"write config {s.config.name()}.{s.field}"))
         elif isinstance(s, LoopIR.Pass):
             pass
         elif isinstance(s, LoopIR.If):
@@ -1149,10 +1169,18 @@ class ConcExec:
             hi = self.ctrl(s.hi, env)
             if lo > hi:
                 self.viol("loop_range", f"for {s.iter}: lo {lo} > hi {hi}")
+            is_par = isinstance(s.loop_mode, LoopIR.Par)
+            saved = self.par_ctx
+            if is_par:
+                self._par_uid += 1
+                uid = self._par_uid
             for i in range(lo, hi):
                 e2 = Env(env)
                 e2[s.iter] = i
+                if is_par:
+                    self.par_ctx = saved + ((uid, i, str(s.iter)),)
                 self.block(s.body, e2)
+            self.par_ctx = saved
         elif isinstance(s, LoopIR.Alloc):
             t = s.type
             shape = [self.ctrl(e, env) for e in (t.shape() if t.is_tensor_or_window() else [])]
